@@ -179,6 +179,19 @@ func (f *frame) execCall(instr ssa.Value, call *ssa.CallCommon) {
 			return
 		}
 	}
+	if p, ok := call.Value.(*ssa.Parameter); ok && f.isRoot {
+		for i, fp := range f.fn.Params {
+			if fp == p && i < len(v.fc.Params) {
+				if target, ok := v.fc.FnParams[v.fc.Params[i]]; ok {
+					if fn := v.eng.fnByKey[target]; fn != nil {
+						v.note("calls through parameter %s are checked against the contract of %s (the only function passed for it)", v.fc.Params[i], target)
+						res = f.callFunction(fn, args, nil, call.Pos())
+						return
+					}
+				}
+			}
+		}
+	}
 	unsupp("dynamic call of %s at %s", call.Value, v.pos(call.Pos()))
 }
 
@@ -235,6 +248,10 @@ func (f *frame) callFunction(fn *ssa.Function, args []Val, bindings []Val, pos t
 	}
 	if v.eng.effectFree(fn, nil) {
 		v.trusted["effect-free: "+key] = true
+		if strings.HasPrefix(fn.String(), "github.com/sirupsen/logrus.Fatal") {
+			v.note("log.Fatal* at %s ends the process: modelled as a point of no return", v.pos(pos))
+			f.reach = TFalse
+		}
 		rt := sig.Results()
 		var r Val
 		switch rt.Len() {
@@ -458,6 +475,20 @@ func (f *frame) applyContractX(fc *FuncContract, args []Val, ptypes []types.Type
 	v := f.v
 	if len(fc.Params) != len(args) {
 		sfail("contract %s names %d parameters, the function has %d", fc.Key, len(fc.Params), len(args))
+	}
+	for pname, target := range fc.FnParams {
+		for i, n := range fc.Params {
+			if n == pname && i < len(args) {
+				want := v.ctx.Const("func:"+v.eng.fnByKey[target].String(), SFn)
+				got, isT := args[i].(Term)
+				ok := isT && got.S == want.S
+				goal := TFalse
+				if ok {
+					goal = TTrue
+				}
+				v.oblige("pre", fmt.Sprintf("%s/fnarg@%s.%s", v.fc.Key, fc.Key, pname), nil, f.reach, goal, v.pos(pos), "the function passed for "+pname+" is "+target)
+			}
+		}
 	}
 	pre := v.contractEnv(fc, args, ptypes, f.cur)
 	for k, x := range extra {
